@@ -478,6 +478,20 @@ def check(fx, rep, tier):
                                     exact = True
                             if isinstance(anc, dict) and anc.get("k") == "If" and key == "then" and any(x.get("k") == "Binary" and x.get("op") == "Rem" for x, _ in F.walk(anc["cond"])):
                                 exact = True
+                        # ... or in a later arm of a match whose EARLIER arm takes every width with `w % UNIT != 0` away
+                        # (`Some(w) if w % 8 != 0 => Bits, _ => Bytes { length: width.map(|w| w / 8) }`)
+                        for i_, (anc, key) in enumerate(nps):
+                            if isinstance(anc, dict) and "pat" in anc and "body" in anc and i_ > 0 and isinstance(nps[i_ - 1][0], dict) and nps[i_ - 1][0].get("k") == "Match":
+                                for earlier in nps[i_ - 1][0]["arms"]:
+                                    if earlier is anc:
+                                        break
+                                    g = earlier.get("guard")
+                                    if g is None:
+                                        continue
+                                    ne0 = any(x.get("k") == "Binary" and x.get("op") == "Ne" and any(y.get("k") == "Binary" and y.get("op") == "Rem" for y, _ in F.walk(x)) for x, _ in F.walk(g))
+                                    takes_some = any(v == "Some" for _, v in (F.pat_variants(earlier["pat"]) or set())) or earlier["pat"].get("p") in ("Bind", "Wild")
+                                    if ne0 and takes_some and F.strip(g).get("k") == "Binary" and F.strip(g).get("op") == "Ne":
+                                        exact = True
                         rep.oblige(exact, "R15.2", f"width-kept:{node.get('variant')}#{n_div}", F.loc(node["span"]), f"the word arm of `{conv}` reports `{node.get('variant')}.{f['field']}` through a division that is not under a `% .. == 0` test: a known width that is not a whole number of units is truncated, so the known width is not kept", sample={"rule": "R15.2", "type": node.get("variant"), "exact_division": exact})
         rep.floor("R15.2", n_div, 1, "unit conversions of a known width in the word arm of the type conversion")
     # a sized word pushed down to a span whose size it does not have is a contradiction accepted silently (shared with C12)
